@@ -5,6 +5,7 @@ CFG = {
     "theorems": [
         "Leptos.Reactive.C01_read_eq_scratch",
         "Leptos.Reactive.C01_untracked_snapshot",
+        "Leptos.Reactive.C01_untracked_inert",
         "Leptos.Reactive.C01_read_eq_scratch_noeff",
         "Leptos.Reactive.C01_scratch_fuel_irrelevant",
         "Leptos.Reactive.upd_ok",
